@@ -2,7 +2,7 @@
 """Self-test of the checkers (both ways): applies each mutant of mutants.json (and each seeded change of ../seeded/*/patch.diff)
 to a scratch copy of /repo outside /repo and /verif, runs the quick checks with FPDEC_REPO=<copy>, and compares the set of
 alarming checks with the expectation. The scratch copy and its build output are removed afterwards.
-usage: run_mutants.py [--seeded] [--only id[,id]] [--checks C01,C02]"""
+usage: run_mutants.py [--seeded | --refactors] [--only id[,id]] [--checks C01,C02]"""
 import json, os, shutil, subprocess, sys, tempfile
 
 HERE = os.path.dirname(os.path.abspath(__file__))
@@ -45,6 +45,8 @@ def main():
             if os.path.exists(pf):
                 meta = json.load(open(os.path.join(sd, d, 'meta.json'))) if os.path.exists(os.path.join(sd, d, 'meta.json')) else {}
                 items.append({'id': d, 'patch': pf, 'expect': [meta.get('property')] if meta.get('property') else [], 'what': meta.get('what', '')})
+    elif '--refactors' in args:
+        items = json.load(open(os.path.join(HERE, 'refactors.json')))
     else:
         items = json.load(open(os.path.join(HERE, 'mutants.json')))
     ok = True
@@ -67,7 +69,7 @@ def main():
                     print('%-10s PATTERN NOT FOUND (tree changed?)' % m['id'])
                     ok = False
                     continue
-                open(p, 'w').write(t.replace(m['old'], m['new'], 1))
+                open(p, 'w').write(t.replace(m['old'], m['new']) if m.get('all') else t.replace(m['old'], m['new'], 1))
             alarms, broken = run_checks(tmp, which)
             exp = set(x for x in m.get('expect', []) if x in which)
             good = exp <= set(alarms) and (bool(exp) or not alarms) and not broken
